@@ -480,7 +480,7 @@ impl<'a> R<'a> {
                     _ => String::new(),
                 };
                 Some(format!(
-                    "{{ let mut {rv}{ty} = Vec::new();\n{body}{rv} }}",
+                    "{{ let mut {rv}{ty} /*@TY:{rv}@*/ = Vec::new();\n{body}{rv} }}",
                     rv = rv,
                     ty = ty,
                     body = body
@@ -1101,6 +1101,32 @@ fn renumber(text: &str) -> (String, usize, usize) {
                 &format!("/*@{}:{}@*/", tag, k),
             );
         }
+    }
+    // other temporaries: numbered per family by order of first appearance
+    for fam in ["__out", "__r", "__p", "__n", "__m", "__k", "__v"] {
+        let mut seen: Vec<String> = vec![];
+        let bytes = out.as_bytes();
+        let mut i = 0;
+        while let Some(p) = out[i..].find(fam) {
+            let s0 = i + p;
+            let mut e = s0 + fam.len();
+            while e < bytes.len() && bytes[e].is_ascii_digit() {
+                e += 1;
+            }
+            let before_ok = s0 == 0 || !(bytes[s0 - 1].is_ascii_alphanumeric() || bytes[s0 - 1] == b'_');
+            let after_ok = e >= bytes.len() || !(bytes[e].is_ascii_alphanumeric() || bytes[e] == b'_');
+            if before_ok && after_ok && e > s0 + fam.len() {
+                let id = out[s0..e].to_string();
+                if !seen.contains(&id) {
+                    seen.push(id);
+                }
+            }
+            i = e;
+        }
+        for (k, id) in seen.iter().enumerate() {
+            out = replace_word(&out, id, &format!("{}_{}~", fam, k));
+        }
+        out = out.replace('~', "");
     }
     for (k, id) in closures.iter().enumerate() {
         out = out.replace(
